@@ -1,6 +1,7 @@
 #![allow(dead_code)]
 mod util;
 mod p23;
+mod p25;
 mod p29;
 mod p31;
 
@@ -31,6 +32,7 @@ fn main() {
     let mut ctx = Ctx::new(&prop, &tier, seed, out);
     match prop.as_str() {
         "C23" => p23::run(&mut ctx),
+        "C25" => p25::run(&mut ctx),
         "C29" => p29::run(&mut ctx),
         "C31" => p31::run(&mut ctx),
         _ => { eprintln!("unknown property {prop}"); std::process::exit(2); }
